@@ -8,6 +8,8 @@ import (
 	"go.mongodb.org/mongo-driver/bson"
 	"go.mongodb.org/mongo-driver/mongo"
 
+	"github.com/256dpi/lungo"
+
 	"verif/internal/e1"
 	"verif/internal/world"
 )
@@ -130,7 +132,7 @@ func init() {
 			depth = 4
 		}
 		var mu sync.Mutex
-		var failedSingles, batchChecks, partialBatches int64
+		var failedSingles, batchChecks, partialBatches, txnVariants int64
 		kinds := map[string]bool{}
 		cfg := e1.Config{Alphabet: calls, Depth: depth, Stop: r.TooMany,
 			Before: func(w *world.World, path []int) interface{} { return w.DumpAll() },
@@ -181,6 +183,63 @@ func init() {
 						r.Violation("failed-write-changed-state:"+callKind(last)+":"+obs, fmt.Sprintf("%s returned %s but the database changed.\nbefore:\n%s\nafter:\n%s\nhistory: %s", last, obs, before, after, hist), rep)
 					}
 				}
+				// the same failing write as the second statement of a session transaction: whatever the transaction
+				// commits must be exactly its first statement (or nothing, if the commit is refused)
+				if _, isBatch := batches[last]; !isBatch && !strings.HasPrefix(obs, "ok") {
+					run := func(withFailing bool) (string, []problem, bool) {
+						wt := world.New()
+						defer wt.Close()
+						for _, ci := range path[:len(path)-1] {
+							calls[ci].Do(wt)
+						}
+						base := wt.KeyWithOplog()
+						sess, err := wt.Client.StartSession()
+						if err != nil || sess.StartTransaction() != nil {
+							return "", nil, false
+						}
+						first, second, committed := "", "", false
+						_ = lungo.WithSession(wt.Ctx, sess, func(sc lungo.ISessionContext) error {
+							outer := wt.Ctx
+							wt.Ctx = sc
+							first = cInsertOne("d", "c", bD("_id", "txn-first", "u", "txn-first", "s", "txn-first")).Do(wt)
+							if withFailing {
+								second = calls[path[len(path)-1]].Do(wt)
+							}
+							wt.Ctx = outer
+							return nil
+						})
+						committed = sess.CommitTransaction(wt.Ctx) == nil
+						sess.EndSession(wt.Ctx)
+						if !strings.HasPrefix(first, "ok") || (withFailing && strings.HasPrefix(second, "ok")) {
+							return "", nil, false // the first statement is not applicable here, or the call does not fail in this position
+						}
+						if !committed {
+							if got := wt.KeyWithOplog(); got != base {
+								return "refused-commit-changed-state\n" + got, nil, true
+							}
+							return "", nil, false
+						}
+						probs := append(coherenceProblems(wt.Engine.Catalog()), uniqueProblems(wt.Engine.Catalog())...)
+						// damage that only shows later: one more write through the indexes
+						if _, err := wt.C("d", "c").UpdateMany(wt.Ctx, bD(), bD("$set", bD("later", int32(1)))); err != nil {
+							probs = append(probs, problem{"later-write-fails", "a later UpdateMany fails: " + err.Error()})
+						}
+						return wt.KeyWithOplog(), probs, true
+					}
+					got, probs, ok1 := run(true)
+					want, _, ok2 := run(false)
+					if ok1 && ok2 {
+						mu.Lock()
+						txnVariants++
+						mu.Unlock()
+						if got != want {
+							r.Violation("failed-statement-in-transaction:"+callKind(last)+":"+obs, fmt.Sprintf("session transaction {insert txn-first; %s (fails)}; commit left\n%s\nbut the transaction without the failing statement leaves\n%s\nhistory: %s", last, got, want, hist), rep)
+						}
+						for _, pr := range probs {
+							r.Violation("failed-statement-in-transaction:"+pr.class+":"+callKind(last), pr.what+" after a session transaction {insert; "+last+" (fails)}; commit; history: "+hist, rep)
+						}
+					}
+				}
 				// damage that only shows on the next clone: one more successful write, then full coherence
 				if !strings.HasPrefix(obs, "ok") || batches[last].items != nil {
 					_, err := w.C("d", "c").InsertOne(w.Ctx, bD("_id", "probe", "u", "probe", "s", "probe"))
@@ -208,12 +267,13 @@ func init() {
 		r.Set("evaluations", st.Transitions)
 		r.Set("failing_single_writes_checked", failedSingles)
 		r.Set("distinct_failure_kinds", int64(len(kinds)))
+		r.Set("failing_statements_inside_transactions", txnVariants)
 		r.Set("batches_checked", batchChecks)
 		r.Set("batches_with_failing_items", partialBatches)
 		r.Set("alphabet", e1.Names(calls, seq(len(calls))))
 		r.Set("exhaustive", st.Exhaustive)
 		r.Set("samples", append(append([]interface{}{}, toIface(st.Shortest)...), toIface(st.Longest)...))
-		r.Set("rule", "E1 BFS with state deduplication; every reachable state x every call of the failure-rich alphabet; exact byte dump (documents, index definitions and list order, oplog events) before/after failing single writes; batches compared with their items applied singly")
+		r.Set("rule", "E1 BFS with state deduplication; every reachable state x every call of the failure-rich alphabet; exact byte dump (documents, index definitions and list order, oplog events) before/after failing single writes; every failing single write also as the second statement of a session transaction that is then committed (must equal the transaction without it; indexes coherent; a later write works); batches compared with their items applied singly")
 		r.Assume("the batch oracle trusts the single-write path, which the first clause checks in the same run", "oplog events are compared modulo timestamps when two engines are compared, byte-for-byte within one engine")
 		if st.States < 100 || failedSingles < 500 || len(kinds) < 10 || partialBatches < 200 {
 			r.Broken("vacuous: states=%d failedSingles=%d kinds=%d partialBatches=%d", st.States, failedSingles, len(kinds), partialBatches)
